@@ -118,11 +118,12 @@ def Builder.openRegs (b : Builder) : List Reg :=
             rkids := namespaceKids eb.namespaces, aspans := [] } eb.attributes
       | _ => []
 
-/-- `DocumentBuilder::prefix`: nothing if the URI does not decode, else prefix and URI. -/
+/-- `DocumentBuilder::prefix`: nothing if the URI does not decode or the declaration is a reserved
+    one / a prefixed undeclaration (rejected before anything is interned), else prefix and URI. -/
 def prefixRegs (pfx : Str) (uri : StrSpan) : List Reg :=
   match parseContentGo true uri.start 0 uri.text with
   | .error _ => []
-  | .ok u => [.pfx pfx, .ns u]
+  | .ok u => if reservedDecl pfx u then [] else [.pfx pfx, .ns u]
 
 /-- One arm of the `match token` of `_parse`. -/
 def Builder.stepRegs (b : Builder) : Token → List Reg
@@ -133,7 +134,8 @@ def Builder.stepRegs (b : Builder) : Token → List Reg
   | .elementEnd .open _ => b.openRegs
   | .elementEnd (.close pfx loc) _ => elementNameRegs b.env b.nsStack pfx.text loc.text
   | .elementEnd .empty _ => b.openRegs
-  | .pi target _ _ => [.name target.text Env.noNamespace]
+  -- the target `xml` is refused before `DocumentBuilder::processing_instruction` is called
+  | .pi target _ _ => if isReservedPiTarget target.text then [] else [.name target.text Env.noNamespace]
   | _ => []
 
 /-- The token loop: the calls of each token, as long as the loop goes on. -/
